@@ -2,6 +2,7 @@
 package checks
 
 import (
+	"strings"
 	"bytes"
 	"encoding/json"
 	"fmt"
@@ -155,3 +156,35 @@ func modelName(m color.Model) string {
 }
 
 func setPoolsMostRecent() { vsync.SetPoolPolicy(vsync.PoolMostRecent, nil) }
+
+func stripDigitsAfter(s string) string {
+	var sb strings.Builder
+	for _, r := range s {
+		if r >= '0' && r <= '9' {
+			sb.WriteByte('N')
+		} else {
+			sb.WriteRune(r)
+		}
+	}
+	out := sb.String()
+	for strings.Contains(out, "NN") {
+		out = strings.ReplaceAll(out, "NN", "N")
+	}
+	return out
+}
+
+func tail(s string, n int) string {
+	if len(s) > n {
+		return s[len(s)-n:]
+	}
+	return s
+}
+
+func firstFatal(s string) string {
+	for _, l := range strings.Split(s, "\n") {
+		if strings.HasPrefix(l, "fatal error") || strings.HasPrefix(l, "panic") || strings.Contains(l, "signal") || strings.Contains(l, "out of memory") {
+			return l
+		}
+	}
+	return tail(s, 300)
+}
